@@ -100,6 +100,12 @@ func RunBlocks(base string, res *RunResult, blocks []Block, hk *Hooks) {
 		gap(c, h, "post-begin", 0)
 		var outs []TxOutcome
 		for i, t := range b.Txs {
+			if t.CheckOnly {
+				// a transaction that reaches the mempool check only and is never included in a block
+				c.Check(t, nil)
+				gap(c, h, "post-tx", i)
+				continue
+			}
 			out := c.Deliver(t, nil)
 			outs = append(outs, out)
 			if hk.AfterTx != nil {
